@@ -154,4 +154,19 @@ PROPS = {
                      "liveness (no starvation) is proved as absence of stuck states with queued work (queued_not_stuck) plus the invariant queue != [] -> count >= 1; the leadsTo statement under fairness is not mechanised"],
         open_statements=["no_starvation as a leadsTo theorem under weak fairness (only the enabledness invariant is proved)"],
     ),
+    "C17": dict(
+        lean_targets=["BB.Props.C17"],
+        theorems=["BB.Props.C17.inv_step", "BB.Props.C17.single_instance", "BB.Props.C17.held_implies_running_open",
+                  "BB.Props.C17.stop_after_all_done", "BB.Props.C17.do_blocked_while_stopping", "BB.Props.C17.fresh_instance_after_stop",
+                  "BB.Props.C17.unheld_not_stuck"],
+        corr=[dict(family="worker", quick=120, thorough=5000, mismatch_is_violation=True, no_shrink=True,
+                   nontrivial=has("fresh_instance_after_stop", "do_while_watcher_waiting", "stop_seen_before_hook"),
+                   rule="worker: 1-5 free-running holders x 2-7 Do/done rounds with PRNG perturbation on one real Worker; verif hook points in Do's critical "
+                        "section, at the watcher's wait-group take / Wait return / stop close / exit and at the function's return, plus the function's own start / "
+                        "saw-stop events, form one total order that the Lean transition system must accept (Do only while the watcher does not hold the mutex, an "
+                        "instance started exactly when the model says, stop closed only with no holder outstanding, Wait returns only at counter 0); non-trivial = "
+                        "a fresh instance after a stop, a Do while the watcher is waiting on an earlier wait group")],
+        assumptions=["the supplied function returns only after its stop channel is closed (contract)", "sync.WaitGroup / mutex semantics modelled"],
+        open_statements=["instance_stopped_when_unheld as a leadsTo theorem under fairness (only the no-stuck-state form unheld_not_stuck is proved)"],
+    ),
 }
